@@ -7,6 +7,147 @@ from harness import attrflow as af
 from harness import flowgen as fg
 
 
+DEGENERATE_KINDS = ['constcol', 'zerocol', 'dupcol', 'wide', 'onehot', 'collinear']
+SAMPLING_METHODS = ['random_pca', 'random_agop_on_subset', 'random_global_agop']     # the split methods that draw their direction from N(0, M) with a full matrix M
+
+
+def _degenerate_X(kind, n, d, rng, val):
+    """float32 rows whose covariance (and the AGOP of a kernel model fitted on them) is singular.  Everything is exact in float32: the constant values are dyadic or become
+    exact after the cast, the duplicate is a copy, the collinear column is a doubling."""
+    X = rng.standard_normal((n, d)).astype(np.float32)
+    if kind == 'constcol':
+        X[:, d // 2] = val                      # a bias column
+    elif kind == 'zerocol':
+        X[:, 0] = 0.0                           # a feature that is switched off
+    elif kind == 'dupcol':
+        X[:, d - 1] = X[:, 0]                   # the same feature twice
+    elif kind == 'onehot':
+        X[:, :3] = np.eye(3, dtype=np.float32)[rng.integers(0, 3, size=n)]      # a full one-hot block: its columns sum to the constant one
+    elif kind == 'collinear':
+        X[:, 1] = 2.0 * X[:, 0]
+    elif kind == 'wide':
+        pass                                    # the caller chooses d larger than the number of training rows: fewer rows than features at every node
+    else:
+        raise ValueError(kind)
+    return X
+
+
+_SEED_CALLS = {'random.seed': 'python', 'np.random.seed': 'numpy', 'numpy.random.seed': 'numpy', 'torch.manual_seed': 'torch'}
+
+
+def _unseeded_families(sites):
+    """sites: (file, line, call) from flowgen.rng_sites().  Returns the draws whose generator family has no seeding call inside xRFM.__init__ (fail-closed: a seeding call
+    anywhere else does not count; a family nobody draws from need not be seeded)."""
+    import ast
+    tree = ast.parse(open(os.path.join(REPO, 'xrfm/xrfm.py')).read())
+    init = [f for c in tree.body if isinstance(c, ast.ClassDef) and c.name == 'xRFM' for f in c.body if isinstance(f, ast.FunctionDef) and f.name == '__init__']
+    if len(init) != 1:
+        raise af.TranslationError('xRFM.__init__ not found exactly once')
+    lo, hi = init[0].lineno, init[0].end_lineno
+
+    def family(call):
+        return 'torch' if call.startswith('torch.') else 'numpy' if call.startswith(('np.random.', 'numpy.random.')) else 'python' if call.startswith('random.') else 'unknown'
+    seeded = {_SEED_CALLS[c] for f, ln, c in sites if c in _SEED_CALLS and f == 'xrfm/xrfm.py' and lo <= ln <= hi}
+    return sorted({f'{f}:{ln} {c}' for f, ln, c in sites if c not in _SEED_CALLS and c != 'torch.cuda.manual_seed' and family(c) not in seeded})
+
+
+def _root_direction(model):
+    t = model.trees[0]
+    return None if t['type'] == 'leaf' else [round(float(v), 4) for v in t['split_direction'].detach().cpu().reshape(-1)[:8]]
+
+
+def _degenerate_M_case(ck, xr, rng, j, preds):
+    """one configuration of regime (2f): see the comment at the call site"""
+    kind = DEGENERATE_KINDS[j % 6]
+    method = SAMPLING_METHODS[(j + j // 6) % 3]            # 18 (kind, method) pairs, visited in an order that does not depend on the seed
+    val = [1.0, -2.0, 0.0, 1.5, 0.3, 100.0][(j // 6) % 6] if kind == 'constcol' else None
+    task = ['reg', 'class', 'reg2'][(j + j // 3) % 3]
+    is_class = task == 'class'
+    if kind == 'wide':
+        n = int(rng.integers(55, 75)); d = n + int(rng.integers(3, 12)); L = int(rng.integers(28, 36))
+    else:
+        n = int(rng.integers(90, 170)); d = int(rng.integers(4, 8)); L = int(rng.integers(25, 45))
+    nv, nq = 40, 25
+
+    def dataset(n_train):
+        X = _degenerate_X(kind, n_train + nv + nq, d, rng, val)
+        y = xr.make_y(task, X, rng, n_classes=2)
+        if is_class:
+            y[n_train:n_train + 2] = [0, 1]               # both classes occur among the validation rows as well
+        return [torch.tensor(a) for a in (X[:n_train], y[:n_train], X[n_train:n_train + nv], y[n_train:n_train + nv])], torch.tensor(X[n_train + nv:])
+
+    D, Q = dataset(n)
+    ctor = dict(rfm_params=xr.default_rfm_params(iters=1, reg=1e-2, bandwidth=3.0, bandwidth_mode=['constant', 'adaptive'][(j // 2) % 2]), max_leaf_size=L,
+                n_trees=[1, 2][j % 2], verbose=False, tuning_metric=('accuracy' if is_class and j % 2 else None), split_method=method,
+                classification_mode=['zero_one', 'prevalence'][(j // 3) % 2], refill_size=10, temp_tuning_space=[0.0, 0.05, 0.5],
+                random_state=(0 if j % 4 == 0 else 300 + j), n_tree_iters=(1 if method == 'random_global_agop' else 0))
+    desc = dict(kind='singular second-moment matrix', j=j, degeneracy=kind, const_value=val, method=method, task=task, n=n, d=d, L=L, n_trees=ctor['n_trees'],
+                random_state=ctor['random_state'], bandwidth_mode=ctor['rfm_params']['model']['bandwidth_mode'], seed=ck.seed)
+    histories = ['generators freshly seeded with 0', 'straight after the previous fit + a few python/numpy/torch draws',
+                 'generators seeded with 10000+j, 10^4 torch / numpy / python draws, another estimator fitted on other data of the same kind']
+    outs, dirs = [], []
+    for h in range(3):
+        if h == 0:
+            xr.seed_all(0)
+        elif h == 1:
+            torch.rand(3 + j); np.random.rand(5 + j); np.random.standard_normal(2); [random.random() for _ in range(j % 7 + 1)]
+        else:
+            xr.seed_all(10_000 + j)
+            torch.randn(10_000); np.random.rand(10_000); np.random.standard_normal(100); [random.random() for _ in range(50)]
+            other = xr.xRFM(**copy.deepcopy(dict(ctor, random_state=None)))
+            Do, _ = dataset(n - 7)
+            with xr.quiet():
+                other.fit(*Do)
+        m = xr.xRFM(**copy.deepcopy(ctor))                # random_state seeds here
+        with xr.quiet():
+            m.fit(*D)
+        outs.append(preds(m, Q, is_class)); dirs.append(_root_direction(m))
+    split = any(t['type'] != 'leaf' for t in m.trees)
+    ck.case(dict(desc, sub='seed-after-history'), nontrivial=split, sample=(j == 0))
+    ck.count(f'singular M: {kind} x {method}')
+    for k in (1, 2):
+        if any(a.shape != b.shape or not np.array_equal(a, b) for a, b in zip(outs[0], outs[k])):
+            a, b = outs[0][0].astype(float), outs[k][0].astype(float)
+            if a.shape == b.shape and not np.array_equal(a, b):
+                diff = np.abs(a - b).reshape(len(a), -1).max(axis=1); r = int(diff.argmax()); dmax = float(diff.max())
+                row = f'test row {r} {[round(float(v), 5) for v in Q[r][:6]]}: {a[r].tolist()} vs {b[r].tolist()}'
+            else:
+                r, dmax, row = None, float('nan'), 'labels equal, probabilities differ' if a.shape == b.shape else f'shapes {a.shape} vs {b.shape}'
+            cdesc = f'constant column {d // 2} = {val}' if kind == 'constcol' else kind
+            ck.violation(f'split_method={method!r}, random_state={ctor["random_state"]}, {n}x{d} float32 training rows with a singular second-moment matrix ({cdesc}), '
+                         f'max_leaf_size={L}: two fits of the same seed / data / configuration predict differently (max diff {dmax:.4g}; {row}); '
+                         f'root split direction {dirs[0]} (history: {histories[0]}) vs {dirs[k]} (history: {histories[k]}) on {desc}',
+                         dict(desc, history_first=histories[0], history_second=histories[k], maxdiff=dmax, root_directions=[dirs[0], dirs[k]],
+                              ctor={kk: vv for kk, vv in ctor.items()}, X_train=D[0].tolist(), y_train=D[1].tolist(), X_val=D[2].tolist(), y_val=D[3].tolist(),
+                              X_test=Q.tolist(), predictions_first=outs[0][0].tolist(), predictions_second=outs[k][0].tolist()),
+                         key=json.dumps(dict(site='seed-reproducibility', method='singular-M', split_method=method)))
+    # the same regime for the second sentence of the statement: a re-used estimator (one earlier fit on other data of the same kind, with splits) against a fresh one
+    if j % 3:
+        return                                            # every third configuration (each method and both column-level / row-level degeneracies come up)
+    ctor2 = dict(ctor)
+    if j % 2:
+        ctor2.pop('random_state')                         # every other one of them without random_state in the constructors
+    Dh, _ = dataset(n + 11)
+
+    def seeded_fit(model, data, s):
+        xr.seed_all(s)
+        with xr.quiet():
+            model.fit(*data)
+        return model
+    fresh = seeded_fit(xr.xRFM(**copy.deepcopy(ctor2)), D, 557)
+    used = xr.xRFM(**copy.deepcopy(ctor2)); seeded_fit(used, Dh, 31 + j); seeded_fit(used, D, 557)
+    a, b = preds(fresh, Q, is_class), preds(used, Q, is_class)
+    ck.case(dict(desc, sub='refit'), nontrivial=any(t['type'] != 'leaf' for t in used.trees))
+    if any(x.shape != y.shape or not np.array_equal(x, y) for x, y in zip(a, b)):
+        dmax = max([float(np.max(np.abs(x.astype(float) - y.astype(float)))) for x, y in zip(a, b) if x.shape == y.shape] or [float('nan')])
+        ck.violation(f'split_method={method!r} on {n}x{d} rows with a singular second-moment matrix ({kind}, value {val}): a refit after one earlier fit predicts differently from a '
+                     f'fresh model (max diff {dmax}); fresh T={fresh.split_temperature}, refit T={used.split_temperature}; root directions {_root_direction(fresh)} vs '
+                     f'{_root_direction(used)} on {desc}',
+                     dict(desc, maxdiff=dmax, fresh_T=fresh.split_temperature, refit_T=used.split_temperature, X_train=D[0].tolist(), y_train=D[1].tolist(),
+                          X_history=Dh[0].tolist(), y_history=Dh[1].tolist()),
+                     key=json.dumps(dict(site='refit', method='singular-M', same_T=(fresh.split_temperature == used.split_temperature))))
+
+
 def run(ck):
     from harness import xr
     ck.rule = ('(a) attribute-flow trace of xRFM.fit (and what it calls) regenerated from the source: no attribute that fit or predict can change is '
@@ -51,6 +192,9 @@ def run(ck):
                       'on the task type alone', 'translation', tm is None, str(tm))
         sites = fg.rng_sites()
         ck.obligation(f'all {len(sites)} random draws use the seeded global generators (no private generator, no generator= argument)', 'translation', True)
+        unseeded = _unseeded_families(sites)
+        ck.obligation('every generator family (python random / numpy.random / torch) from which the library draws is seeded from random_state inside xRFM.__init__',
+                      'translation', not unseeded, f'draws from a generator that the constructor does not seed: {unseeded}')
         ck.notes.append('RNG call sites: ' + '; '.join(f'{a.split("/")[-1]}:{b} {c}' for a, b, c in sites))
     except af.TranslationError as e:
         ck.obligation('attrflow / RNG-site translator accepts the source', 'translation', False, str(e))
@@ -227,6 +371,17 @@ def run(ck):
                 dmax = max(float(np.max(np.abs(a.astype(float) - b.astype(float)))) for a, b in zip(outsd[0], outsd[k]))
                 ck.violation(f'same seed/data/config gives different predictions (max diff {dmax}) on discrete data split along the integer-coded column ({descd})', dict(descd, maxdiff=dmax),
                              key=json.dumps(dict(site='seed-reproducibility', method='tied')))
+    # (2f) split methods that SAMPLE their direction from N(0, M) (M = covariance of the node's rows, AGOP of the split model, averaged AGOP of the previous build) on data whose M is
+    #      only positive SEMI-definite: a constant / zero column (bias column), exactly duplicated or collinear columns, a one-hot block (columns sum to one), more features than rows
+    #      at the node.  That is the corner where a sampler has to leave the generic route (no Cholesky factor, zero singular values).  Three process histories before the compared
+    #      fit: global generators freshly seeded / straight after the previous fit (whatever that fit drew from python, numpy and torch, plus extra draws from each) / after heavy
+    #      consumption from all three generators and another estimator's fit on other degenerate data.  All of that happens before the compared model is constructed, i.e. before
+    #      random_state seeds, so by the statement the predictions are bit-identical.
+    import time as _time
+    t2f = (_time.time(), _time.process_time())
+    for j in range(ck.n(12, 36)):
+        _degenerate_M_case(ck, xr, rng, j, preds)
+    ck.notes.append(f'regime (2f) singular second-moment matrices: wall {_time.time() - t2f[0]:.1f}s, cpu {_time.process_time() - t2f[1]:.1f}s')
     # (2e) separate interpreter processes (each with its own string-hash salt, PYTHONHASHSEED = 1 / 2 / 3): the same seed, data and configuration give bit-identical predictions
     import subprocess, sys, hashlib
     script = ("import numpy as np, torch, hashlib, sys, io, contextlib\n"
